@@ -216,6 +216,13 @@ def h_model(B, L=None, flags=None, sample_name="sample", feature_name="feature",
             for d in sdims:
                 if d in ty.dims:
                     B.check(f"transform(unseen): labels of {d} are those of the new data", set(ty.indexes[d]) == wantY[d], f"{list(ty.indexes[d])[:5]}")
+    if unseen and isinstance(X, xr.DataArray) and X.ndim >= 3:
+        # the same values handed to transform in another dimension order (data is addressed by label, never by position):
+        # every value must still land on its own feature label, i.e. the scores are those of the fit
+        Xr = X.transpose(*reversed(X.dims))
+        tr = B.completes("transform(training data, dimensions in reverse order) runs", lambda: model.transform(Xr))
+        if tr is not None:
+            B.eq("transform(training data, dimensions in reverse order) == scores()", tr, model.scores())
     B.covers("EOF.components", "EOF.scores", "EOF.inverse_transform")
     comps = B.completes("components() runs", lambda: model.components())
     if comps is not None:
